@@ -398,6 +398,7 @@ NEAR_MISSES = ["void_", "voids", "avoid", "void8x", "int_8", "uint8_t", "xint8",
                "a_", "_1", "truncate", "truncated_", "boolean", "constant", "autos", "nulls", "order", "And1", "typ",
                "selfie", "CON2", "TRUE_", "q1_2_3", "uq1__2"]
 BAD_SYNTAX = ["0abc", "9", "a-b", "a b", "a.b", "été", "naïve", "K", "aK", "a$", "١", "a١"]
+BAD_TYPE_NAMES = ["T ", " T", "\tT", "T\t", "a\u00a0", "T\u2003"]  # only for files and directories: blanks around a name
 LETTERS = "abcdefghijklmnopqrstuvwxyzABCDEFGHIJKLMNOPQRSTUVWXYZ"
 
 
@@ -1021,6 +1022,8 @@ def inj_type_name(rng, case):
     n, why = bad_name(rng)
     if n in ("a.b",):
         n = "9z"
+    if rng.random() < 0.1:
+        n, why = rng.choice(BAD_TYPE_NAMES), "blanks"
     where = rng.choice(["short", "ns", "root"])
     old_ns = [case["id"]["root"]] + list(case["id"]["ns"])
     if where == "short":
@@ -1179,6 +1182,15 @@ def boundaries(rng):
     for w in (15, 16, 17, 31, 32, 33, 63, 64, 65, 8, 128):
         with_field(["s", ["float", w, rng.choice(["sat", "trunc"]), False]], "float%d" % w)
     with_field(["s", ["int", 8, "trunc", True]], "truncated-int8")
+    # every width once (a table-driven implementation can be wrong at any single width)
+    for w in range(0, 71):
+        for k in ("uint", "int", "float"):
+            c = minimal()
+            c["sections"][0].insert(0, ["field", _wrap(rng, [k, w, "sat", False]), "x"])
+            add(c, "sweep:%s" % k)
+        c = minimal()
+        c["sections"][0].insert(0, ["pad", w])
+        add(c, "sweep:void")
     for n in (0, 1, 2):
         for k in ("fix", "vari", "vare"):
             with_field([k, ["uint", 8, "sat", False], n], "capacity:%s:%d" % (k, n))
@@ -1228,11 +1240,12 @@ def boundaries(rng):
             c["sections"][j] = [["dir", "union", None]] + [["field", ["s", ["uint", 8, "sat", False]], "v%d" % q] for q in range(nvar)] + [["dir", "sealed", None]]
             add(c, "union-variants:%d" % nvar)
     # names: every reserved word and pattern, and the near misses, as attribute name and as type name
-    for n in RESERVED_WORDS + RESERVED_PATTERNED + NEAR_MISSES + BAD_SYNTAX:
-        for spelled in {n, n.upper(), rand_case(rng, n)}:
-            c = minimal()
-            c["sections"][0].insert(0, ["field", ["s", ["bool"]], spelled])
-            add(c, "attr-name")
+    for n in RESERVED_WORDS + RESERVED_PATTERNED + NEAR_MISSES + BAD_SYNTAX + BAD_TYPE_NAMES:
+        for spelled in sorted({n, n.upper(), rand_case(rng, n)}):
+            if n not in BAD_TYPE_NAMES:
+                c = minimal()
+                c["sections"][0].insert(0, ["field", ["s", ["bool"]], spelled])
+                add(c, "attr-name")
             if "." not in spelled and "/" not in spelled:
                 where = rng.choice(["short", "ns", "root"])
                 c = minimal(short=spelled) if where == "short" else minimal(root=spelled) if where == "root" else minimal()
@@ -1249,7 +1262,7 @@ def boundaries(rng):
 def generate(rng, tier):
     cases = boundaries(rng)
     streams = ["targeted"] * len(cases)
-    n_random = 1300 if tier == "quick" else 28000
+    n_random = 3200 if tier == "quick" else 40000
     # the 16-combination grid of valid skeletons first
     for service in (False, True):
         for union in (False, True):
@@ -1261,7 +1274,7 @@ def generate(rng, tier):
     for k in range(n_random):
         r = rng.random()
         nviol = 0 if r < 0.2 else 1 if r < 0.75 else 2
-        if nviol == 1 and k < 40 * len(INJECTORS):
+        if nviol == 1 and k < 60 * len(INJECTORS):
             c = gen_planted(rng, 1, [INJECTORS[k % len(INJECTORS)]])  # every category gets its share
         else:
             c = gen_planted(rng, nviol)
